@@ -368,9 +368,13 @@ theorem emptyTakesDefault_sound (cpu : Nat) (o : Str) (h : emptyTakesDefault o =
     · simp [finalOf, h]
     · subst h; cases ev <;> simp [finalOf, DefaultVal.eval]
 
-/-- finding C19_F1: `output_file=`; finding C19_F3: `mapping_partitioning=` -/
-def scope_C19_F1 (o : Str) : Bool := o = OUTPUT_FILE
+/-- finding C19_F3: `mapping_partitioning=` (finding C19_F1, `output_file=`, was repaired by /repo commit 8e4f7f8:
+    its scope predicate is gone and `C19_F1_fixed` below states the repaired behaviour) -/
 def scope_C19_F3 (o : Str) : Bool := o = MAPPING_PARTITIONING
+/-- `output_file=` keeps its empty *completed* value (it is an EMPTY_VALID option); what the documentation promises
+    is about the *effective* value, the path `get_output_file_path` returns, and that is settled by `C19_F1_fixed`
+    below rather than by `emptyTakesDefault` -/
+def effectiveViaPath (o : Str) : Bool := o = OUTPUT_FILE
 
 /-- FULL statement (false on the unchanged tree): every documented option for which the documentation gives
     the empty value no meaning of its own takes its default when left empty. -/
@@ -379,7 +383,7 @@ def C19_empty_full : Prop :=
 
 theorem C19_empty_partial :
     ∀ o ∈ Spec.ConfigDoc.documentedOptions, Spec.ConfigDoc.emptyTakesDefault o = true →
-      ¬ scope_C19_F1 o = true → ¬ scope_C19_F3 o = true → emptyTakesDefault o = true := by decide +kernel
+      ¬ effectiveViaPath o = true → ¬ scope_C19_F3 o = true → emptyTakesDefault o = true := by decide +kernel
 
 /-- where the documentation gives the empty value a meaning of its own (`na_values=`: the one-token list) the
     empty value is kept, not defaulted -/
@@ -401,13 +405,13 @@ theorem C19_empty_value_kept :
 
 theorem C19_empty_full_fails : ¬ C19_empty_full := by
   intro h
-  exact absurd (h "output_file".toList (by decide +kernel) (by decide +kernel)) (by decide +kernel)
+  exact absurd (h "mapping_partitioning".toList (by decide +kernel) (by decide +kernel)) (by decide +kernel)
 
-/-- counter-witness C19_F1 on the model: `output_file=` is accepted and the file that will be written is named
-    after the OPTION (`output_file.nt`), not after the documented default (`knowledge-graph.nt`, which is what an
-    absent `output_file` gives) -/
-theorem C19_F1_witness :
-    (parseConfig 1 [(OUTPUT_FILE, [])]).toOption.bind outputFilePath = some "output_file.nt".toList ∧
+/-- former finding C19_F1, repaired by /repo commit 8e4f7f8 (`file_name = DEFAULT_OUTPUT_FILE` in the last branch of
+    `get_output_file_path`): `output_file=` is accepted and the file that will be written is the documented default,
+    exactly what an absent `output_file` gives. If the defect returns, this theorem no longer checks. -/
+theorem C19_F1_fixed :
+    (parseConfig 1 [(OUTPUT_FILE, [])]).toOption.bind outputFilePath = some "knowledge-graph.nt".toList ∧
     (parseConfig 1 []).toOption.bind outputFilePath = some "knowledge-graph.nt".toList := by decide +kernel
 
 /-- counter-witness C19_F3 on the model: `mapping_partitioning=` is listed among the options whose empty value
